@@ -91,6 +91,11 @@ def gen_model(rng: Prng, n: int) -> dict:
         t["level_name"] = rng.choice(["level", "level", "index", "count", "cols", "label", "keys", "id_"])
     if rng.chance(0.15):
         t["rgb"] = [[float(rng.below(256)) for _ in range(3)] for _ in range(n)]  # a vector-valued per-node column
+    om = rng.stream("omit")
+    if om.chance(0.12):
+        # the constructor is given only some of the attribute columns; the tree fills in the others itself (whatever
+        # default it chooses is read back into the model) and they are written through handles like any column
+        t["omit"] = [c for c in ("type", "x", "y", "z", "r") if om.chance(0.45)] or ["r"]
     return t
 
 
@@ -303,6 +308,8 @@ def sweep(owners: list, handles: list, deep_ix: int | None):
         deep = deep_ix is None or hi == deep_ix or h.get("fresh", False)
         if h["kind"] == "node":
             read_node(h["obj"], o, h["ids"][0], what, o["idpid"])
+        elif h["kind"] == "vnode":
+            read_node(h["obj"], o, h["ids"][0], what, False)
         elif h["kind"] in ("path", "seg"):
             read_pathlike(h["obj"], o, h["ids"], what, deep)
         elif h["kind"] == "branch":
@@ -370,10 +377,18 @@ def execute(program: dict) -> dict:
             extra = {lname: np.array(tm["level"], dtype=np.int32)} if "level" in tm else {}
             if "rgb" in tm:
                 extra["rgb"] = np.array(tm["rgb"], dtype=np.float32)
-            t = Tree(n, id=np.arange(n, dtype=np.int32), type=col("type", np.int32), x=col("x", np.float32),
-                     y=col("y", np.float32), z=col("z", np.float32), r=col("r", np.float32),
-                     pid=np.array(tm["pid"], dtype=np.int32), comments=["c"], source="gen", **extra)
+            given = {"type": col("type", np.int32), "x": col("x", np.float32), "y": col("y", np.float32),
+                     "z": col("z", np.float32), "r": col("r", np.float32)}
+            for c in tm.get("omit", ()):
+                del given[c]
+            t = Tree(n, id=np.arange(n, dtype=np.int32), pid=np.array(tm["pid"], dtype=np.int32), comments=["c"],
+                     source="gen", **given, **extra)
             m = {k: list(tm[k]) for k in ATTRS + (["level"] if "level" in tm else [])}
+            for c in tm.get("omit", ()):
+                # the default the tree chose (nothing is demanded of its value, only that it is one value per node)
+                dv = np.asarray(t.get_ndata(c)).reshape(-1).tolist()
+                m[c] = [int(v) for v in dv] if c == "type" else [float(v) for v in dv]
+                world.probe("c09.column_filled_in_by_the_constructor")
             m["id"] = list(range(n))
             m["pid"] = list(tm["pid"])
             owners.append({"kind": "tree", "obj": t, "m": m, "idpid": True, "level_name": lname})
@@ -535,12 +550,18 @@ def execute(program: dict) -> dict:
                         chk(len(got) == len(exp), "slice_len", f"{what}[{sl}] has {len(got)} nodes, expected {len(exp)}")
                         for q, (nd, i) in enumerate(zip(got, exp)):
                             read_node(nd, o, i, f"{what}[{sl}][{q}]", False)
+                        if exp:
+                            # node handles obtained from a VIEW stay registered and are read again after every later
+                            # step (never written through: the statement speaks of handles obtained from a tree)
+                            add("vnode", h["o"], [exp[0]], got[0], f"{what}[slice][0]")
                         world.log(si, "index", h["serial"], "slice", len(exp))
                     else:
                         i = step["i"]
                         i = (abs(i) % n) if i >= 0 else -1 - (abs(i + 1) % n)
                         nd = h["obj"][i] if step["h"] % 3 else h["obj"].node(i)
                         read_node(nd, o, ids[i], f"{what}[{i}]", False)
+                        add("vnode", h["o"], [ids[i]], nd, f"{what}[{i}]")
+                        world.probe("c09.node_handle_of_a_view_kept")
                         if step["t"] % 2:
                             # a detached copy of a node reached through a view: equal content at creation
                             d = nd.detach()
@@ -769,7 +790,7 @@ def _drop_leaf(program: dict, ti: int, i: int):
         return None
     p = copy.deepcopy(program)
     for k in p["trees"][ti]:
-        if k not in ("strided", "level_name"):
+        if k not in ("strided", "level_name", "omit"):
             del p["trees"][ti][k][i]
     p["trees"][ti]["pid"] = [(q - 1 if q > i else q) for q in p["trees"][ti]["pid"]]
     return p
@@ -784,7 +805,7 @@ def shrink_candidates(program: dict):
             if c is not None:
                 yield c
     for ti, t in enumerate(program["trees"]):
-        for key in ("strided", "level", "rgb"):
+        for key in ("strided", "level", "rgb", "omit"):
             if key in t:
                 q = copy.deepcopy(program)
                 del q["trees"][ti][key]
